@@ -33,6 +33,8 @@ structure Conforms (s : St) (T : TState) : Prop where
   eventSorted : s.event.Sorted = true
   metadata : Spec.mem s.metadata T.metadata = true
   metadataSorted : s.metadata.Sorted = true
+  /-- every variable alive at run time is in scope, or was dropped from the scope by a block -/
+  closed : ∀ n v, s.getVar n = some v → (T.getVar n).isSome = true ∨ n ∈ T.leaked
 
 /-! ### checks -/
 
@@ -56,7 +58,7 @@ inductive Chk where
   | divDropsTypeDef          -- `/` drops fallibility / returns of its operands
   | andDropsTypeDef          -- `&&` / `||` whose lhs decides the outcome at compile time drop the
                              --   fallibility / returns of the lhs; `true && e` is not `fallible_unless(null|boolean)`
-  | scopeLeak                -- path assignment to a variable that is not in scope (may be alive at run time)
+  | scopeLeak                -- path assignment to a variable that is not in scope but that a block left alive
   | returnDropsReturns       -- `return e` / `abort e` / a function-call argument drop what `e` itself may return
   | constSignedZero          -- `Details::merge` keeps a constant that is `==` but not identical
   deriving DecidableEq, Repr
@@ -205,7 +207,9 @@ def tgtChecks (t : Tgt) (T : TState) : List Chk :=
   | .noop => []
   | .internal n p =>
     (match T.getVar n with
-     | none => chk .scopeLeak p.isEmpty
+     | none =>
+       -- a path assignment creates the variable — unless a block left one of that name alive
+       if p.isEmpty then [] else chk .scopeLeak (!T.leaked.contains n) ++ insertChecks Kind.undefined p
      | some d => insertChecks d.td.kind p)
   | .external m p => insertChecks (T.extKind m) p
 
@@ -280,9 +284,9 @@ mutual
     | .ifte pred thn hasElse els, T =>
       let p := typeSeq pred T {}
       let t := typeSeq thn p.2 {}
-      let ifT : TState := { t.2 with locals := Locals.applyChildScope p.2.locals t.2.locals }
+      let ifT : TState := scopedState p.2.locals t.2
       let e := typeSeq els p.2 {}
-      let elT : TState := { e.2 with locals := Locals.applyChildScope p.2.locals e.2.locals }
+      let elT : TState := scopedState p.2.locals e.2
       checksSeq pred T {} ++ chk .ctorPoststate (p.1.finish.kind.isBoolean && !p.1.finish.fallible) ++
       checksSeq thn p.2 {} ++
       chk .structural (p.2.locals.all fun (n, _) => (t.2.getVar n).isSome) ++
